@@ -324,6 +324,105 @@ def quantize(self, arr_norm):
     np.clip(arr, self.digi_min, self.digi_max, out=arr)
     return arr.astype(self.dtype, copy=False)
 ''',
+    "cread": '''
+def cread(self, nunits):
+    if self.ifile_cur is None:
+        raise OSError("No file is open for reading")
+    count = nunits // self.bitsinfo.bitfact
+    data = []
+    while count >= 0:
+        count_read = min(self.sinfo.entries[self.ifile_cur].datalen, count)
+        data_read = np.fromfile(self.file_obj, count=count_read, dtype=self.bitsinfo.dtype)
+        count -= len(data_read)
+        data.append(data_read)
+        if count == 0:
+            break
+        self._seek2hdr(self.ifile_cur + 1)
+    data_ar = np.concatenate(data)
+    if self.bitsinfo.unpack:
+        return unpack(data_ar, self.bitsinfo.nbits, bitorder=self.bitsinfo.bitorder)
+    return data_ar
+''',
+    "creadinto": '''
+def creadinto(self, read_buffer, unpack_buffer=None):
+    if self.ifile_cur is None:
+        raise OSError("No file is open for reading")
+    nbytes = 0
+    read_buffer_view = memoryview(read_buffer)
+    while True:
+        nbytes_read = self.file_obj.readinto(read_buffer_view[nbytes:])
+        if nbytes_read is None:
+            raise BlockingIOError("file might in non-blocking mode")
+        nbytes += nbytes_read
+        if nbytes == len(read_buffer_view) or self.eos():
+            break
+        self._seek2hdr(self.ifile_cur + 1)
+    if self.bitsinfo.unpack and unpack_buffer is not None:
+        read_ar = np.frombuffer(read_buffer_view, dtype=np.uint8)
+        unpack_ar = np.frombuffer(memoryview(unpack_buffer), dtype=np.uint8)
+        unpack(read_ar, self.bitsinfo.nbits, unpack_ar, bitorder=self.bitsinfo.bitorder)
+    elif self.bitsinfo.unpack:
+        raise ValueError("unpack_buffer should be provided when unpacking")
+    return nbytes
+''',
+    "eos": '''
+def eos(self):
+    eof = self.file_obj.tell() == os.fstat(self.file_obj.fileno()).st_size
+    eol = self.ifile_cur == len(self.files) - 1
+    return eof & eol
+''',
+    "parse_header": '''
+def parse_header(filename):
+    filepath = validate_path(filename)
+    with filepath.open("rb") as fp:
+        header = {}
+        try:
+            key = _read_string(fp)
+        except struct.error:
+            raise OSError("empty") from None
+        if key != "HEADER_START":
+            raise OSError("not sigproc")
+        while True:
+            key = _read_string(fp)
+            if key == "HEADER_END":
+                break
+            key_fmt = header_keys[key]
+            if key_fmt == "str":
+                header[key] = _read_string(fp)
+            else:
+                header[key] = struct.unpack(key_fmt, fp.read(struct.calcsize(key_fmt)))[0]
+        header["hdrlen"] = fp.tell()
+        fp.seek(0, 2)
+        header["filelen"] = fp.tell()
+        header["datalen"] = int(header["filelen"]) - int(header["hdrlen"])
+        header["nsamples"] = 8 * int(header["datalen"]) // int(header["nbits"]) // int(header["nchans"])
+        fp.seek(0)
+        header["filename"] = filepath.as_posix()
+    return header
+''',
+    "_read_string": '''
+def _read_string(fp):
+    strlen = struct.unpack("I", fp.read(struct.calcsize("I")))[0]
+    return fp.read(strlen).decode()
+''',
+    "encode_key": '''
+def encode_key(key, value=None, value_type="str"):
+    if value is None:
+        return struct.pack("I", len(key)) + key.encode()
+    if value_type == "str" and isinstance(value, str):
+        return struct.pack("I", len(key)) + key.encode() + struct.pack("I", len(value)) + value.encode()
+    return struct.pack("I", len(key)) + key.encode() + struct.pack(value_type, value)
+''',
+    "encode_header": '''
+def encode_header(header):
+    hdr_encoded = encode_key("HEADER_START")
+    for key, value in header.items():
+        if key not in header_keys:
+            continue
+        hdr_encoded += encode_key(key, value=value, value_type=header_keys[key])
+    hdr_encoded += encode_key("HEADER_END")
+    return hdr_encoded
+''',
     "compute_online_moments_basic": '''
 def compute_online_moments_basic(array, moments, startflag=0):
     nchans = moments.shape[0]
@@ -458,22 +557,28 @@ class Signature:
         loops = [n for n in ast.walk(fn) if isinstance(n, ast.For)]
         mapping: dict[str, str] = {}
         self.skeleton = []
-        lvars = {l.target.id for l in loops if isinstance(l.target, ast.Name)}
+        lvars = set()
         for l in loops:
-            if not (isinstance(l.target, ast.Name) and isinstance(l.iter, ast.Call) and dotted(l.iter.func) == "range"):
-                raise AnalysisError(f"kernel {fn.name}: loop `{norm(l.iter)}` is not a range loop")
-            args = l.iter.args
-            exprs = [flow.expand(a, flow.node_for(l), stop=lvars) for a in args]
+            for n in ast.walk(l.target):
+                if isinstance(n, ast.Name):
+                    lvars.add(n.id)
+        for l in loops:
+            tnames = [l.target.id] if isinstance(l.target, ast.Name) else (
+                [e.id for e in l.target.elts] if isinstance(l.target, ast.Tuple) and all(isinstance(e, ast.Name) for e in l.target.elts) else None)
+            if tnames is None:
+                raise AnalysisError(f"kernel {fn.name}: loop target `{norm(l.target)}` is not a name or a tuple of names")
             penv = PolyEnv()
-            if len(exprs) == 1:
-                ext = penv.poly(exprs[0]).canon()
+            if isinstance(l.iter, ast.Call) and dotted(l.iter.func) == "range" and len(tnames) == 1:
+                exprs = [flow.expand(a, flow.node_for(l), stop=lvars) for a in l.iter.args]
+                ext = penv.poly(exprs[0]).canon() if len(exprs) == 1 else "..".join(penv.poly(e).canon() for e in exprs)
             else:
-                ext = "..".join(penv.poly(e).canon() for e in exprs)
-            new = f"L<{ext}>"
-            old = l.target.id
-            if old in mapping and mapping[old] != new:
-                raise AnalysisError(f"kernel {fn.name}: loop variable {old} reused with a different extent")
-            mapping[old] = new
+                it = flow.expand(l.iter, flow.node_for(l), stop=lvars)
+                ext = "in " + penv.atom_name(it)
+            for i, old in enumerate(tnames):
+                new = f"L<{ext}>" if len(tnames) == 1 else f"L<{ext}>#{i}"
+                if old in mapping and mapping[old] != new:
+                    raise AnalysisError(f"kernel {fn.name}: loop variable {old} reused with a different extent")
+                mapping[old] = new
         fn = _Rename(mapping).visit(fn)
         # multi-definition locals by order of first binding
         fi = _fi(fn)
@@ -534,7 +639,7 @@ class Signature:
     def _collect(self, stmts, ctx: tuple) -> None:
         for st in stmts:
             if isinstance(st, ast.For):
-                ext = st.target.id
+                ext = st.target.id if isinstance(st.target, ast.Name) else norm(st.target)
                 self.skeleton.append(ctx + (ext,))
                 self._collect(st.body, ctx + (ext,))
             elif isinstance(st, ast.If):
@@ -564,6 +669,25 @@ class Signature:
                 self.facts.add(("expr", self._canon(st.value, st), ctx))
             elif isinstance(st, ast.Raise):
                 self.facts.add(("raise", ctx))
+            elif isinstance(st, ast.While):
+                c = self._canon(st.test, st)
+                self.skeleton.append(ctx + (f"while {c}",))
+                self._collect(st.body, ctx + (f"while {c}",))
+                self._collect(st.orelse, ctx + (f"whileelse {c}",))
+            elif isinstance(st, ast.With):
+                items = "; ".join(self._canon(i.context_expr, st) + (" as " + norm(i.optional_vars) if i.optional_vars is not None else "")
+                                  for i in st.items)
+                self._collect(st.body, ctx + (f"with {items}",))
+            elif isinstance(st, ast.Try):
+                self._collect(st.body, ctx + ("try",))
+                for h in st.handlers:
+                    self._collect(h.body, ctx + (f"except {norm(h.type) if h.type is not None else ''}",))
+                self._collect(st.orelse, ctx + ("tryelse",))
+                self._collect(st.finalbody, ctx + ("finally",))
+            elif isinstance(st, ast.Break):
+                self.facts.add(("break", ctx, self._next("break" + str(ctx))))
+            elif isinstance(st, ast.Continue):
+                self.facts.add(("continue", ctx, self._next("continue" + str(ctx))))
             elif isinstance(st, ast.Pass):
                 continue
             else:
@@ -588,7 +712,7 @@ def compare(fn: FuncInfo, name: str | None = None) -> tuple[str, list[str]]:
     except AnalysisError as exc:
         return "incomparable", [str(exc)]
     def shape(sk):
-        return sorted(tuple("if" if x.startswith("if") else "L" for x in t) for t in sk)
+        return sorted(tuple("if" if x.startswith("if") else "W" if x.startswith("while") else "L" for x in t) for t in sk)
 
     if shape(act.skeleton) != shape(ref.skeleton):
         return "incomparable", [f"loop nest shape {shape(act.skeleton)} differs from the reference {shape(ref.skeleton)}"]
